@@ -96,6 +96,11 @@ func (e *Encoder) Encode(v interface{}) error {
 		}
 		return e.int(0)
 	case time.Time:
+		if _, offset := v.Zone(); offset%60 != 0 {
+			// RFC 3339 cannot express the seconds of a zone offset, they are dropped by
+			// the formatter and the decoded value is a different instant. Use UTC.
+			v = v.UTC()
+		}
 		e.numBuf = v.AppendFormat(e.numBuf[:0], time.RFC3339Nano)
 		return e.bytes(e.numBuf)
 	case time.Duration:
